@@ -94,7 +94,13 @@ def run(ctx):
                 ctx.violation("substitution outcome differs when sub-schemas are wrapped", value=repr(v),
                               plain_outcome=repr(r1), wrapped_outcome=repr(r2), **info)
             elif r1[0] == "ok":
-                if not (rebuild.erase_custom(r2[1]) == r1[1]) or repr(r2[1]) != repr(r1[1]):
+                # compared structurally (encodings) and by printed form; `==` is false for NaN values (K6)
+                def enc(x):
+                    try:
+                        return sexp.dumps(encode.enc_schema(x, encode.Interner()))
+                    except Exception:
+                        return repr(x)
+                if enc(rebuild.erase_custom(r2[1])) != enc(r1[1]) or repr(r2[1]) != repr(r1[1]):
                     ctx.violation("substitution result differs (after erasing wrappers) from the plain result",
                                   value=repr(v), plain_result=repr(r1[1]), wrapped_result=repr(r2[1]), **info)
     dis = valcorr.compare(cases, ctx, view="errors")
